@@ -504,13 +504,14 @@ Definition sync_deliver (s : sync) (i : Z) (k pos : nat) (m : option Q) : sync :
        s_pending := s_pending s'; s_rem := s_rem s' |}
   else s1.
 
-(* SynchronousHyperbandScheduler.on_trial_result; payload = (metric, resource) *)
-Definition sync_on_result (s : sync) (i : Z) (r : Q * Z) : sync * decision * option Z :=
+(* SynchronousHyperbandScheduler.on_trial_result; payload = (metric, resource); metric None = the
+   trial reported NaN (float(result[metric]) is written into the rung as it is) *)
+Definition sync_on_result (s : sync) (i : Z) (r : option Q * Z) : sync * decision * option Z :=
   match pending_of (s_pending s) i with
   | None => (s, STOP, None)
   | Some (k, pos) =>
       let b := nth k (s_brs s) (new_bracket []) in
-      if Z.leb (b_level b) (snd r) then (sync_deliver s i k pos (Some (fst r)), PAUSE, None)
+      if Z.leb (b_level b) (snd r) then (sync_deliver s i k pos (fst r), PAUSE, None)
       else (s, CONTINUE, None)
   end.
 
@@ -538,7 +539,7 @@ Definition sync_removables (s : sync) : sync * list Z :=
   ({| s_tbl := s_tbl s; s_max := s_max s; s_brs := s_brs s; s_primary := s_primary s;
       s_pending := s_pending s; s_rem := [] |}, s_rem s).
 
-Definition sync_sched : scheduler sync (Q * Z) unit :=
+Definition sync_sched : scheduler sync (option Q * Z) unit :=
   {| on_result := sync_on_result; suggest := sync_suggest; removables := sync_removables;
      on_error := sync_on_error; spec_ok := fun _ _ => false |}.
 
